@@ -124,3 +124,5 @@ def run(ctx):
     from engine.uninit import uninit_serial
     uninit_serial(ctx, prog)
 
+    from engine.run import borrow
+    borrow(ctx, 'C18', ['PEAK-CALL', 'PEAK-ALIGN'], 'the PEAK position written to the file must not depend on how the writes were split')
